@@ -42,7 +42,13 @@ class KexCurve25519:
             )
 
     def _perform_exchange(self, peer_key):
-        secret = self.key.exchange(peer_key)
+        try:
+            secret = self.key.exchange(peer_key)
+        except ValueError as e:
+            # newer backends refuse low-order points themselves
+            raise SSHException(
+                "peer's curve25519 public value is invalid: {}".format(e)
+            )
         if constant_time.bytes_eq(secret, b"\x00" * 32):
             raise SSHException(
                 "peer's curve25519 public value has wrong order"
